@@ -23,19 +23,17 @@ THEOREMS = [
     "date_roundtrip", "date_display_out_of_range_regression", "date_out_of_range_unparseable", "civil_roundtrip",
     "int_roundtrip", "bool_roundtrip", "string_roundtrip",
     "blob_roundtrip", "blob_backslash_quote_regression",
-    "interval_roundtrip_partial", "timestamp_roundtrip_partial", "interval_roundtrip_unsound", "timestamp_roundtrip_unsound", "timestamp_wholesec_roundtrip_unsound", "f64_nan_roundtrip",
+    "interval_roundtrip_partial", "timestamp_roundtrip", "timestamp_subsecond_regression", "timestamp_first_year_unsound", "interval_roundtrip_unsound", "f64_nan_roundtrip",
 ]
 
 # reason tag computed by the model  ->  known-finding signature
 WHY_SIG = {
-    "ts-subsecond": ("roundtrip:timestamp:subsecond",
-                     "Timestamp/TimestampTz Display truncates to milliseconds and prints a fraction that from_str rejects (or silently drops sub-millisecond parts)"),
     "iv-subsecond": ("roundtrip:interval:subsecond",
                      "Interval Display drops the sub-second part of `ms`"),
-    "ts-bc-wide-year": ("roundtrip:timestamp:bc-year-over-4-digits",
-                        "Timestamp Display prints years below -9999 as `<5+ digits> … BC` without sign, which `%Y` (at most 4 digits unless signed) rejects"),
     "date-range": ("roundtrip:date:out-of-range",
                    "Date admits every i32 day count but its text form is chrono's (years -262143..=262142): outside it Display prints `<date out of range: N days>`, which does not parse back"),
+    "ts-first-year": ("roundtrip:timestamp:first-chrono-year",
+                      "a timestamp in chrono's first year -262143 prints as 262143-.. BC; +262143 is not a chrono year, so it does not parse back"),
     "ts-range": ("roundtrip:timestamp:out-of-range",
                  "Timestamp admits every i64 but its text form is chrono's: outside it Display prints `<timestamp out of range: N us>`, which does not parse back"),
 }
